@@ -3,10 +3,15 @@ package main
 // Translator generator C05ClientSliceWrites: a small taint pass over the
 // typed syntax of util/resolve and the three resolver packages.
 //
-// Sources: the first result of a call of Versions / Requirements /
-// MatchingVersions on a value whose type implements resolve.Client, and reads
-// lc.PackageVersions[..] / lc.imports[..] of a LocalClient.
-// Sanitisers: slices.Clone(x), append(<fresh or nil>, x...), make+copy.
+// Sources: the slice result of a call, through an interface, of a method that
+// resolve.Client declares (same name and signature: today Versions /
+// Requirements / MatchingVersions), and reads m[..] of a map-of-slices field of
+// a struct type that implements resolve.Client (today LocalClient's
+// PackageVersions and imports). Both are found through go/types, not by name.
+// Sanitisers: slices.Clone(x), append(<fresh or nil or x[:0:0]>, x...),
+// make+copy, an element-wise copy loop into a fresh slice: a value is only
+// client-owned if it aliases the client's backing array, so whatever is written
+// INTO a freshly allocated slice (by copy, append or index assignment) is not.
 // Sinks: sort.Slice/SliceStable/Sort/Stable/Strings/Ints, slices.Sort*/
 // Reverse/Delete*/Compact*/Insert/Replace, copy(dst,..), clear, an index
 // assignment x[i] = .. (also x[i].f = .., x[i]++), append(x[:i], ..), the
@@ -25,6 +30,7 @@ package main
 import (
 	"fmt"
 	"go/ast"
+	"go/constant"
 	"go/token"
 	"go/types"
 	"path/filepath"
@@ -73,6 +79,8 @@ type taintPass struct {
 	sources    map[[3]string]bool
 	clones     map[[3]string]bool
 	changed    bool
+	ownerFuncs map[string]bool
+	implCache  map[*types.Named]bool
 }
 
 var namedSinks = map[string]bool{
@@ -84,11 +92,13 @@ var namedSinks = map[string]bool{
 	"deps.dev/util/resolve.sortNPMDependencies": true,
 }
 
-// functions of the client itself that are entitled to write its slices
-var ownerFuncs = map[string]bool{
-	"(*deps.dev/util/resolve.LocalClient).AddVersion": true,
-	"deps.dev/util/resolve.NewLocalClient":            true,
-}
+// Functions of the client itself that are entitled to write its slices
+// (ownerFuncs, computed by computeOwners): methods of a client implementation
+// that resolve.Client does not declare (the mutator API, today
+// LocalClient.AddVersion) and functions that return a client implementation
+// (constructors, today NewLocalClient) - provided nothing else in the analysed
+// packages refers to them. A helper that a Client method (or any resolver code)
+// calls is therefore NOT an owner, whatever it is named.
 
 var libSinks = map[string]bool{
 	"sort.Slice": true, "sort.SliceStable": true, "sort.Sort": true, "sort.Stable": true,
@@ -128,7 +138,7 @@ func newTaintPass(repo string) (*taintPass, error) {
 		return nil, err
 	}
 	tp := &taintPass{repo: repo, funcs: map[string]*funcInfo{}, fieldTaint: map[string]label{},
-		sources: map[[3]string]bool{}, clones: map[[3]string]bool{}}
+		sources: map[[3]string]bool{}, clones: map[[3]string]bool{}, implCache: map[*types.Named]bool{}}
 	for _, p := range pkgs {
 		for _, f := range p.Syntax {
 			for _, d := range f.Decls {
@@ -179,7 +189,82 @@ func newTaintPass(repo string) (*taintPass, error) {
 	if len(tp.funcs) < 50 {
 		return nil, fmt.Errorf("taint pass: only %d functions found", len(tp.funcs))
 	}
+	tp.computeOwners()
 	return tp, nil
+}
+
+// implementsClient: T or *T implements resolve.Client, in p's type universe.
+func (tp *taintPass) implementsClient(p *packages.Package, nt *types.Named) bool {
+	if nt == nil {
+		return false
+	}
+	if v, ok := tp.implCache[nt]; ok {
+		return v
+	}
+	it := resolveIface(p, "Client")
+	_, isStruct := nt.Underlying().(*types.Struct)
+	v := it != nil && isStruct && (types.Implements(nt, it) || types.Implements(types.NewPointer(nt), it))
+	tp.implCache[nt] = v
+	return v
+}
+
+// clientMethod: m has the name and signature of a method resolve.Client declares.
+func clientMethod(p *packages.Package, m *types.Func) bool {
+	it := resolveIface(p, "Client")
+	if it == nil || m == nil {
+		return false
+	}
+	for i := 0; i < it.NumMethods(); i++ {
+		if cm := it.Method(i); cm.Name() == m.Name() && types.Identical(cm.Type(), m.Type()) {
+			return true
+		}
+	}
+	return false
+}
+
+func (tp *taintPass) computeOwners() {
+	cand := map[string]bool{}
+	for _, k := range tp.order {
+		fi := tp.funcs[k]
+		obj, _ := fi.pkg.TypesInfo.Defs[fi.decl.Name].(*types.Func)
+		if obj == nil {
+			continue
+		}
+		sig := obj.Type().(*types.Signature)
+		if r := sig.Recv(); r != nil {
+			if tp.implementsClient(fi.pkg, derefNamed(r.Type())) && !clientMethod(fi.pkg, obj) {
+				cand[k] = true
+			}
+			continue
+		}
+		for i := 0; i < sig.Results().Len(); i++ {
+			if tp.implementsClient(fi.pkg, derefNamed(sig.Results().At(i).Type())) {
+				cand[k] = true
+			}
+		}
+	}
+	// a candidate that other analysed code refers to is an ordinary function
+	for changed := true; changed; {
+		changed = false
+		for _, k := range tp.order {
+			fi := tp.funcs[k]
+			if cand[k] {
+				continue
+			}
+			ast.Inspect(fi.decl.Body, func(n ast.Node) bool {
+				if id, ok := n.(*ast.Ident); ok {
+					if f, ok := fi.pkg.TypesInfo.Uses[id].(*types.Func); ok {
+						if ck := funcKey(f); cand[ck] {
+							delete(cand, ck)
+							changed = true
+						}
+					}
+				}
+				return true
+			})
+		}
+	}
+	tp.ownerFuncs = cand
 }
 
 func recvName(e ast.Expr) string {
@@ -269,7 +354,7 @@ func (w *fwalk) reach(n ast.Node, l label, sink string) {
 	if l == 0 {
 		return
 	}
-	if l&clientBit != 0 && !ownerFuncs[w.fi.key] {
+	if l&clientBit != 0 && !w.tp.ownerFuncs[w.fi.key] {
 		f, line := w.pos(n)
 		w.tp.sites[site{f, w.fi.short, line, sink}] = true
 	}
@@ -498,6 +583,26 @@ func (w *fwalk) clauses(body *ast.BlockStmt, st *fstate) {
 	*st = *out
 }
 
+// zeroCap: a full slice expression x[l:h:m] whose capacity bound m-l is the constant 0.
+func (w *fwalk) zeroCap(sl *ast.SliceExpr) bool {
+	if !sl.Slice3 || sl.Max == nil {
+		return false
+	}
+	c := func(e ast.Expr) (int64, bool) {
+		if e == nil {
+			return 0, true
+		}
+		tv, ok := w.info.Types[e]
+		if !ok || tv.Value == nil {
+			return 0, false
+		}
+		return constant.Int64Val(constant.ToInt(tv.Value))
+	}
+	lo, ok1 := c(sl.Low)
+	mx, ok2 := c(sl.Max)
+	return ok1 && ok2 && mx-lo == 0
+}
+
 func (w *fwalk) objOf(id *ast.Ident) types.Object {
 	if o := w.info.Defs[id]; o != nil {
 		return o
@@ -583,7 +688,7 @@ func (w *fwalk) lhsWrite(lhs ast.Expr, st *fstate, at ast.Node) {
 						w.reach(at, w.expr(x.X, st), "index-assign")
 					}
 				case *types.Map:
-					if sel, ok := ast.Unparen(x.X).(*ast.SelectorExpr); ok && w.isClientMap(sel) && !ownerFuncs[w.fi.key] {
+					if sel, ok := ast.Unparen(x.X).(*ast.SelectorExpr); ok && w.isClientMap(sel) && !w.tp.ownerFuncs[w.fi.key] {
 						f, line := w.pos(at)
 						w.tp.sites[site{f, w.fi.short, line, "client-map-write"}] = true
 					}
@@ -597,19 +702,27 @@ func (w *fwalk) lhsWrite(lhs ast.Expr, st *fstate, at ast.Node) {
 	}
 }
 
+// isClientMap: sel selects a map-of-slices field of a struct type that
+// implements resolve.Client (the client's own store).
 func (w *fwalk) isClientMap(sel *ast.SelectorExpr) bool {
 	s := w.info.Selections[sel]
 	if s == nil || s.Kind() != types.FieldVal {
 		return false
 	}
-	v := s.Obj()
-	if v.Pkg() == nil || v.Pkg().Path() != "deps.dev/util/resolve" {
+	m, ok := s.Obj().Type().Underlying().(*types.Map)
+	if !ok || !isSliceT(m.Elem()) {
 		return false
 	}
-	if v.Name() != "PackageVersions" && v.Name() != "imports" {
-		return false
+	// the struct that declares the field (promotion through embedding included)
+	t := deref(s.Recv())
+	for _, i := range s.Index()[:len(s.Index())-1] {
+		st, ok := t.Underlying().(*types.Struct)
+		if !ok {
+			return false
+		}
+		t = deref(st.Field(i).Type())
 	}
-	return strings.HasSuffix(types.TypeString(deref(s.Recv()), nil), "resolve.LocalClient")
+	return w.tp.implementsClient(w.fi.pkg, derefNamed(t)) || w.tp.implementsClient(w.fi.pkg, derefNamed(s.Recv()))
 }
 
 func deref(t types.Type) types.Type {
@@ -748,32 +861,6 @@ func (w *fwalk) expr(e ast.Expr, st *fstate) label {
 	return 0
 }
 
-func (w *fwalk) isClientRecv(t types.Type) bool {
-	if t == nil {
-		return false
-	}
-	need := []string{"Version", "Versions", "Requirements", "MatchingVersions"}
-	ms := types.NewMethodSet(t)
-	if _, ok := t.Underlying().(*types.Interface); !ok {
-		if _, isPtr := t.(*types.Pointer); !isPtr {
-			ms = types.NewMethodSet(types.NewPointer(t))
-		}
-	}
-	for _, n := range need {
-		found := false
-		for i := 0; i < ms.Len(); i++ {
-			if ms.At(i).Obj().Name() == n {
-				found = true
-				break
-			}
-		}
-		if !found {
-			return false
-		}
-	}
-	return true
-}
-
 // call evaluates a call: sinks, sources, sanitisers, summaries. It returns
 // the labels of the results.
 func (w *fwalk) call(c *ast.CallExpr, st *fstate) []label {
@@ -821,7 +908,12 @@ func (w *fwalk) call(c *ast.CallExpr, st *fstate) []label {
 				if len(c.Args) == 0 {
 					return []label{0}
 				}
-				if _, isSl := ast.Unparen(c.Args[0]).(*ast.SliceExpr); isSl {
+				if sl, isSl := ast.Unparen(c.Args[0]).(*ast.SliceExpr); isSl {
+					if w.zeroCap(sl) {
+						// x[:0:0] has no capacity: append must allocate, nothing of x is written
+						// or aliased (this is how slices.Clone itself is written)
+						argL[0] = 0
+					}
 					w.reach(c, argL[0], "append(x[:i],..)")
 				}
 				if argL[0] == 0 && c.Ellipsis.IsValid() && len(argL) == 2 && argL[1]&clientBit != 0 {
@@ -887,7 +979,7 @@ func (w *fwalk) call(c *ast.CallExpr, st *fstate) []label {
 	// implementation is unknown, so the result is client-owned); calls on a
 	// concrete client type use that method's summary instead (LocalClient's
 	// methods return its map entries, which are sources themselves).
-	if recv != nil && (name == "Versions" || name == "Requirements" || name == "MatchingVersions") && isIface(w.info.TypeOf(recv)) && w.isClientRecv(w.info.TypeOf(recv)) {
+	if recv != nil && isIface(w.info.TypeOf(recv)) && nres >= 1 && clientMethod(w.fi.pkg, callee) && isSliceT(firstResult(callee)) {
 		f, _ := w.pos(c)
 		w.tp.sources[[3]string{f, w.fi.short, "Client." + name}] = true
 		res[0] = clientBit
@@ -987,6 +1079,14 @@ func (w *fwalk) call(c *ast.CallExpr, st *fstate) []label {
 		}
 	}
 	return res
+}
+
+func firstResult(f *types.Func) types.Type {
+	sig, ok := f.Type().(*types.Signature)
+	if !ok || sig.Results().Len() == 0 {
+		return nil
+	}
+	return sig.Results().At(0).Type()
 }
 
 func isIface(t types.Type) bool {
